@@ -70,7 +70,7 @@ class PathExpression:
                 if op is TOP:
                     el = el.root
                 elif op is UP:
-                    if el.parent:
+                    if el.parent is not None:
                         el = el.parent
                 elif op is HERE:
                     pass
